@@ -126,7 +126,10 @@ def replay_plot(model, which="pseudopressure", nx=3, nt=4, every=1, rescale=Fals
     problems = []
     try:
         if which == "pseudopressure":
-            if x_max is None:
+            if every is None:
+                plotting.plot_pseudopressure(r, rescale=rescale, ax=ax)       # the default stride (200) on a short run
+                every = 200
+            elif x_max is None:
                 plotting.plot_pseudopressure(r, every=every, rescale=rescale, ax=ax)
             else:
                 # zooming in (x_max, y_max only set the axis limits): the curves are still drawn against the node positions
@@ -234,12 +237,14 @@ def job_profiles(job, nx, nt):
     mod = _load_plotting()
     job.encoded(mod, "plot_pseudopressure")
     job.stub("matplotlib Axes / pyplot.subplots: recording stubs (the x and y data handed to Axes.plot are recorded)")
-    job.bound(plot_nx=nx, plot_nt=nt, strides=[1, 2, 3])
+    job.bound(plot_nx=nx, plot_nt=nt, strides=[1, 2, 3, nt, nt + 3, "default (200)"])
     r = DuckReservoir(nx, nt)
     x_want = [Q(1, nx) + (1 - Q(1, nx)) * Q(j, nx - 1) for j in range(nx)]
     xm, ym = fresh("x_max", pos=True), fresh("y_max", pos=True)
+    # strides up to and beyond the number of stored profiles (only the initial profile is then selected), and the default
+    # stride (200, left to the function) on this short run
     for every, rescale, given_ax, zoom in [(e, rs_, g, False) for e in (1, 2, 3) for rs_ in (False, True) for g in (True, False)] + \
-            [(1, False, True, True), (2, True, True, True)]:
+            [(1, False, True, True), (2, True, True, True)] + [(e, rs_, True, False) for e in (nt, nt + 3, None) for rs_ in (False, True)]:
         if True:
             if True:
                 def run():
@@ -249,6 +254,8 @@ def job_profiles(job, nx, nt):
                     before = [list(row.d) for row in rr_.pseudopressure.d]
                     if zoom:
                         out = mod.plot_pseudopressure(rr_, every=every, rescale=rescale, ax=ax, x_max=xm, y_max=ym)
+                    elif every is None:
+                        out = mod.plot_pseudopressure(rr_, rescale=rescale, ax=ax)
                     else:
                         out = mod.plot_pseudopressure(rr_, every=every, rescale=rescale, ax=ax)
                     after = [list(row.d) for row in rr_.pseudopressure.d] if isinstance(rr_.pseudopressure, SymArray) and rr_.pseudopressure.ndim == 2 else None
@@ -266,7 +273,7 @@ def job_profiles(job, nx, nt):
                                        {"what": "plot_pseudopressure wrote to reservoir.pseudopressure", "replayer": "replay_plot_history", "replayer_kwargs": {"every": every, "rescale": rescale}}, None)
                     else:
                         job.record(f"{tag}/plotting leaves the simulated field alone[path{k}]", "unsat", 0.0, note="effect check on the path")
-                    idx = [i for i in range(nt) if i % every == 0]
+                    idx = [i for i in range(nt) if i % (every or 200) == 0]
                     ok = isinstance(ax, AxStub) and len(ax.lines) == len(idx)
                     bad = []
                     if ok:
